@@ -63,7 +63,7 @@ PROP = {'gen': [],
                'closest entry over the typed tables (C20_closest_256_exact_model) and, measured at the true palette positions, a '
                'closest entry up to 12 eps in squared distance (C20_closest_256_true_palette_upto_eps); the grey level is a nearest of '
                'the four by luma and monotone in it; the bytes the encoder model emits carry exactly these indices / levels / '
-               'unchanged channels for the fg, bg and underline roles (C20_roles_*, underline colour has no grey rendering). FOR '
+               'unchanged channels for the fg, bg and underline roles (C20_roles; an underline colour has no grey rendering: nothing is sent, a decision of the code recorded in the specification). FOR '
                'THE CODE the property is established by running it: on every check ALL 2^24 colours x 3 roles x 3 depths go through '
                'the real encoder (exact-integer comparison in Rust: entry within eps = 1e-6 in distance of the brute-force optimum '
                'at the true palette positions, equal to the exact model\'s entry, nearest grey level, unchanged channels, no '
